@@ -10,3 +10,9 @@ Proof. reflexivity. Qed.
 
 Lemma parser_limits_agree : Generated.FactsC05.parser_limits = Expected.FactsC05.parser_limits.
 Proof. reflexivity. Qed.
+
+Lemma parser_wrapping_loops_agree : Generated.FactsC05.parser_wrapping_loops = Expected.FactsC05.parser_wrapping_loops.
+Proof. reflexivity. Qed.
+
+Lemma parser_wrapping_loops_without_link_agree : Generated.FactsC05.parser_wrapping_loops_without_link = Expected.FactsC05.parser_wrapping_loops_without_link.
+Proof. reflexivity. Qed.
